@@ -23,7 +23,7 @@ PREFIX_KINDS = {"mk_group": 6, "mk_object": 12, "add_data": 12, "add_comment": 2
 RO_KINDS = {"mk_group": 4, "mk_object": 5, "add_data": 6, "add_comment": 3, "add_file": 2, "set_values": 5, "rename": 5, "set_flag": 4, "set_meta": 4,
             "move": 3, "move_data": 2, "copy": 5, "rm_ws": 5, "rm_parent": 4, "pg_add": 4, "pg_rm": 2, "pg_del": 2, "pg_new": 2, "type_edit": 3, "mk_dup": 1,
             "observe": 6, "lookup": 4, "list": 4, "gc": 2,
-            "hole_attr": 4, "h_fetch_active": 3, "h_fetch_rplus": 2, "h_monitored_copy": 3, "h_uijson": 3, "copy_out": 4, "copy_in": 3, "reopen_r": 3, "coop_write": 0, "h_save_as_refused": 2}
+            "hole_attr": 4, "h_fetch_active": 3, "h_fetch_rplus": 2, "h_monitored_copy": 3, "h_uijson": 3, "copy_out": 4, "copy_in": 3, "reopen_r": 3, "coop_write": 0, "h_save_as_refused": 2, "h_fetch_r_on_closed": 2}
 
 
 class ReadOnlyScenario(BaseScenario):
@@ -363,6 +363,19 @@ class ReadOnlyScenario(BaseScenario):
             else:
                 ro.open()
             sim.probe("helper_fetch_rplus")
+            return "reopened"
+        if kind == "h_fetch_r_on_closed":
+            # the helper is handed the CLOSED workspace and asked for read access: whatever the workspace's own
+            # constructor mode, the block must see a read-only handle and the file must not change
+            world.drop_all()
+            ro.close()
+            with fetch_active_workspace(ro, mode="r") as got:
+                if got.geoh5.mode != "r":
+                    raise Violation("C10", "helper_mode", f"fetch_active_workspace(closed workspace, 'r') yields mode {got.geoh5.mode!r}",
+                                    {"helper": "fetch_active_workspace", "closed": True})
+                got.root.children  # pylint: disable=pointless-statement
+            sim.probe("helper_fetch_r_on_closed")
+            handle.ws = self.open_ro(world.cfg, path, ro)
             return "reopened"
         if kind == "h_fetch_active":
             with fetch_active_workspace(ro, mode="r") as got:
